@@ -36,6 +36,59 @@ theorem returned_cols_filled :
     ("hid", "hid", none) ∈ returned ∧ sortKey = "hid" ∧ searchSide = "left" := by
   decide
 
+/-- **Single source.**  Under every flag set, every array returned in `halo_data` is filled from exactly one
+expression over the columns of the slab's `halos` dataset (no array is left unfilled, none is filled by two
+competing statements), the id array from the `id` column, and a 1-D velocity-deviate column is stacked
+along axis 1.  (`decide` over the regenerated tables.) -/
+theorem returned_cols_single_source :
+    (∀ fl ∈ flagSets, ∀ e ∈ returned, active fl e.2.2 = true → (sourcesOf haloSources fl e.2.1).length = 1) ∧
+    (∀ fl ∈ flagSets, sourcesOf haloSources fl "hid" = [.asInt (.field "id")]) ∧
+    velDev1d = "stack-axis1" := by
+  decide +kernel
+
+/-- Under every flag set, every local array returned in `particle_data` (the derived `pweights`, `pinds`
+apart) and the two arrays `pweights` is computed from are filled from exactly one expression over the columns
+of the slab's `particles` dataset, the host-id array from `halo_id`; every key has either an array or a
+constant, never both. -/
+theorem part_cols_single_source :
+    (∀ fl ∈ flagSets, ∀ e ∈ partReturned, guardActive fl e.2.2 = true →
+      e.2.1 = "pweights" ∨ e.2.1 = "pinds" ∨ (sourcesOf partSources fl e.2.1).length = 1) ∧
+    (∀ fl ∈ flagSets, (sourcesOf partSources fl "pNp").length = 1 ∧ (sourcesOf partSources fl "psubsampling").length = 1 ∧
+      sourcesOf partSources fl "phid" = [.asInt (.field "halo_id")]) ∧
+    (∀ fl ∈ flagSets, ∀ d ∈ partDefaults, guardActive fl d.2.2 = true →
+      ∀ e ∈ partReturned, guardActive fl e.2.2 = true → e.1 ≠ d.1) := by
+  decide +kernel
+
+/-- what each returned per-halo array is documented to hold (comments of `staging`, fields written by
+`prepare_sim`): position, velocity, mass = particle count × particle mass, id, multiplicity, random number,
+velocity deviates (exponential or Gaussian·vrms), 3-d dispersion, concentration r98/r25, radius r98,
+the two assembly-bias ranks and the shear rank -/
+def documentedHalo (expvel : Bool) : List (String × Src) :=
+  [("hpos", .field "x_L2com"), ("hvel", .field "v_L2com"), ("hmass", .mulParam (.field "N") "Mpart"),
+   ("hid", .asInt (.field "id")), ("hmultis", .field "multi_halos"), ("hrandoms", .field "randoms"),
+   ("hveldev", if expvel then .field "randoms_exp" else .field "randoms_gaus_vrms"),
+   ("hsigma3d", .field "sigmav3d_L2com"),
+   ("hc", .div (.field "r98_L2com") (.field "r25_L2com")), ("hrvir", .field "r98_L2com"),
+   ("hdeltac", .field "deltac_rank"), ("hfenv", .field "fenv_rank"), ("hshear", .field "shear_rank")]
+
+/-- the documented content of the per-particle arrays -/
+def documentedPart : List (String × Src) :=
+  [("ppos", .field "pos"), ("pvel", .field "vel"), ("phvel", .field "halo_vel"), ("phmass", .field "halo_mass"),
+   ("phid", .asInt (.field "halo_id")), ("pNp", .field "Np"), ("psubsampling", .field "downsample_halo"),
+   ("prandoms", .field "randoms"), ("pdeltac", .field "halo_deltac"), ("pfenv", .field "halo_fenv"),
+   ("pshear", .field "halo_shear"), ("p_ranks", .field "ranks"), ("p_ranksv", .field "ranksv"),
+   ("p_ranksp", .fieldOrZeros "ranksp"), ("p_ranksr", .fieldOrZeros "ranksr"), ("p_ranksc", .fieldOrZeros "ranksc")]
+
+/-- **Sources as documented.**  Under every flag set, the one expression each returned array is filled from
+(regenerated from the source) is the documented one, for the halo arrays and for the particle arrays.
+A fill statement that reads another dataset column breaks this proof. -/
+theorem sources_as_documented :
+    (∀ fl ∈ flagSets, ∀ e ∈ returned, active fl e.2.2 = true →
+      sourcesOf haloSources fl e.2.1 = ((documentedHalo (fl.contains "want_expvel")).lookup e.2.1).toList) ∧
+    (∀ fl ∈ flagSets, ∀ e ∈ partSources, guardActive fl e.2.2 = true →
+      sourcesOf partSources fl e.1 = (documentedPart.lookup e.1).toList) := by
+  decide +kernel
+
 /-- for every flag set: the arrays returned are among the arrays permuted -/
 theorem returnedVars_permuted (flags : List String) : ∀ v ∈ returnedVars flags, v ∈ permutedVars flags := by
   intro v hv
@@ -196,6 +249,66 @@ theorem staged_pinds_point_to_host (permuted : List String) (t t' : HaloCols Val
   obtain ⟨hperm, hsorted, _⟩ := ids_sorted permuted t t' hhid h
   exact (pinds_points_to_host t'.hid phid hsorted p host hp (hperm.mem_iff.mpr hin)).2
 
+/-! ### the fill loop -/
+
+/-- **fill_is_concat.**  For any number of slabs of any sizes (empty ones included): with an array of
+`sum(counts)` cells and the ticker advanced by each slab's own count, the fill loop raises nothing, its write
+list addresses the cells `0, 1, …, total-1` in this order — every cell written exactly once, none outside the
+array — with the values of the slabs in slab order, and the array read back is their concatenation. -/
+theorem fill_is_concat {α : Type} (parts : List (List α)) :
+    ∃ ws, fillArr (parts.map List.length).sum (parts.map List.length) parts = .ok ws ∧
+      ws.map (·.1) = List.range (parts.map List.length).sum ∧
+      ws.map (·.2) = parts.flatten ∧
+      fillColumn (parts.map List.length) parts = .ok parts.flatten := by
+  refine ⟨placed 0 parts.flatten, fillArr_ok parts, ?_, placed_snd 0 _, fillColumn_ok parts⟩
+  rw [placed_fst, List.length_flatten, List.range_eq_range']
+
+/-- The same for the named arrays of both sides: halo arrays (`halo_ticker`, `Nhalos`) and particle arrays
+(`parts_ticker`, `Nparts`) go through the same `concatCols`; on slabs given as records the result is the
+arrays of the concatenated records (this is `concat_rows`). -/
+theorem fill_is_concat_cols (names : List String) (slabs : List (List (HaloRec Val))) :
+    concatCols names (slabs.map (toCols names)) = .ok (toCols names slabs.flatten) :=
+  concatCols_toCols names slabs
+
+/-! ### what an array row is computed from -/
+
+/-- **eval_rowwise.**  The values a slab contributes to array `v` are computed row by row: row `i` of the
+array is the source expression evaluated on row `i` of the dataset (stacked three times for a 1-D
+velocity-deviate column), so filling cannot mix rows. -/
+theorem eval_rowwise (ops : Ops Val) (tab : List (String × Src × Guard)) (flags : List String) (veldev1d : Bool)
+    (fields : List String) (recs : List (HaloRec Val)) (v : String) (src : Src)
+    (hsrc : sourcesOf tab flags v = [src]) (hf : ∀ f ∈ srcFields src, f ∈ fields) :
+    slabArray ops tab flags veldev1d (toCols fields recs) v =
+      .ok (v, recs.map (fun r => if veldev1d && v == "hveldev" then ops.triple (evalRec ops r src)
+                                 else evalRec ops r src)) := by
+  unfold slabArray singleSource
+  rw [hsrc]
+  simp only [evalSrc_toCols ops fields recs src hf]
+  cases veldev1d && v == "hveldev" <;> simp
+
+/-! ### duplicate ids -/
+
+/-- **argsort_stable.**  The sort index orders by id and, among equal ids, by position in the file: it is the
+stable argsort.  (None of the theorems above assumes duplicate-free ids; `np.argsort`'s default kind is not
+stable, which is why the correspondence stays duplicate-free.) -/
+theorem argsort_stable (hid : List Nat) :
+    ∃ ps : List (Nat × Nat), argsort hid = ps.map (·.2) ∧ (∀ p ∈ ps, hid[p.2]? = some p.1) ∧
+      ps.Pairwise (fun a b => a.1 < b.1 ∨ (a.1 = b.1 ∧ a.2 < b.2)) :=
+  ⟨sortedPairs hid, argsort_eq hid, sortedPairs_spec hid, sortedPairs_lex hid⟩
+
+/-- With duplicate ids `pinds[p]` is the *first* row carrying the host id: every earlier row has a smaller id. -/
+theorem pinds_first_occurrence (hid : List Nat) (host i : Nat) (x : Nat)
+    (hi : i < searchsortedLeft hid host) (hx : hid[i]? = some x) : x < host := by
+  unfold searchsortedLeft at hi
+  have hlt : i < hid.length := by
+    rcases Nat.lt_or_ge i hid.length with h | h
+    · exact h
+    · rw [List.getElem?_eq_none h] at hx; cases hx
+  have := List.not_of_lt_findIdx (p := fun x => decide (host ≤ x)) (xs := hid) hi
+  rw [List.getElem?_eq_getElem hlt] at hx
+  cases hx
+  simpa using this
+
 /-! ### non-vacuity: concrete, non-trivial instances -/
 
 section NonVacuity
@@ -236,6 +349,22 @@ example : sortedB [2, 7, 9] = true := by decide
 example : ([2, 7, 9] : List Nat).Pairwise (· ≤ ·) := by decide
 example : pinds [2, 7, 9] [7, 9, 9, 2] = [1, 2, 2, 0] := by decide
 example : (9 : Nat) ∈ [2, 7, 9] ∧ ([7, 9, 9, 2] : List Nat)[2]? = some 9 := by decide
+
+-- fill loop: three slabs, an empty one in the middle
+example : fillColumn [2, 0, 1] [[10, 11], [], [12]] = .ok [10, 11, 12] := by rfl
+example : (fillArr 3 [2, 0, 1] [[10, 11], [], [12]]).toOption = some [(0, 10), (1, 11), (2, 12)] := by decide
+-- the ticker matters: advanced by slab 0's count every time, slab 2 lands on cell 2 and cell 3 never gets a value
+example : fillColumnWith (fun _ => 0) [1, 2, 1] [[10], [11, 12], [13]] = .error .rejected := by rfl
+-- … and a ticker that runs past the end makes the slice assignment fail (numpy: could not broadcast)
+example : fillColumnWith (fun _ => 1) [1, 2, 2] [[10], [11, 12], [13, 14]] = .error .badLength := by rfl
+-- duplicates: equal ids keep their file order
+example : argsort [5, 3, 5, 3] = [1, 3, 0, 2] := by decide
+example : pinds [3, 3, 5, 5] [5, 3] = [2, 0] := by decide
+-- source expressions of the generated table, evaluated on a record
+example : sourcesOf haloSources ["want_expvel"] "hveldev" = [.field "randoms_exp"] := by decide
+example : sourcesOf haloSources [] "hveldev" = [.field "randoms_gaus_vrms"] := by decide
+example : sourcesOf haloSources [] "hc" = [.div (.field "r98_L2com") (.field "r25_L2com")] := by decide
+example : flagSets.length = 2 ^ flagNames.length ∧ 4 ≤ flagNames.length := by decide
 
 end NonVacuity
 
